@@ -43,6 +43,10 @@ def handleFnGen : Handler := fun st op args =>
         toString (Gen.evaluateTerminal p.blackStones.toNat p.move p.cfg.size p.whiteStones.toNat (genDetails p.winDetails) p.move
           (w.at Facts.fTerminalFlats) (w.at Facts.fTerminalOpponentReserves) (w.at Facts.fTerminalPlies) (w.at Facts.fTerminalReserves)))
     | _ => none
+  else if op == "fn.hash" then
+    match args with
+    | [ptok] => some (st, withPos ptok fun p => toString (Gen.positionHash p.black p.caps p.standing p.white p.hash p.move).toNat)
+    | _ => none
   else if op == "fn.evalwinner" then
     match args with
     | [ptok] =>
